@@ -3,7 +3,7 @@ import os
 
 import numpy as np
 
-from vlib import probe
+from vlib import gen, probe
 from vlib.probe import COL
 from vlib.props import recshared as rs
 
@@ -134,7 +134,7 @@ def run_case(case):
     COL.sample({"family": case["family"], "delim": delim, "route": route, "descr": repr(table.dtype.descr)[:160],
                 "row0": repr(table[0])[:160]}, limit=8)
     header = {"note": "x"} if rng.random() < .3 else None
-    data = table.copy()
+    data = gen.maybe_view(rng, table.copy(), p=0.25)       # sometimes a non-contiguous view of a larger buffer
     try:
         if route == "sfile":
             sfile.write(path, data, delim=delim, header=header)
